@@ -116,6 +116,10 @@ def _judge(H, net):
     an = PetriAnalyzer(H).compute_siphons_traps()
     if {frozenset(x) for x in an.siphons} != minimal(set(sip)) or {frozenset(x) for x in an.traps} != minimal(set(trp)):
         fails.append(Fail("analyzer", f"siphons={an.siphons} traps={an.traps}", f"siphons={sorted(map(sorted, minimal(set(sip))))} traps={sorted(map(sorted, minimal(set(trp))))}"))
+    else:
+        an.compute_siphons_traps()  # the same analyser object asked again
+        if {frozenset(x) for x in an.siphons} != minimal(set(sip)) or {frozenset(x) for x in an.traps} != minimal(set(trp)) or len(an.siphons) != len(minimal(set(sip))) or len(an.traps) != len(minimal(set(trp))):
+            fails.append(Fail("analyzer_reuse", f"second pass: siphons={an.siphons} traps={an.traps}", "the first answer of the same object"))
     # ---------- firing rule
     pn = PetriNet()
     pre = [ec.side_dict(l) for l, r in net]
